@@ -93,69 +93,70 @@ Proof.
 Qed.
 
 (** ** matrix form *)
+(** the squared distance as the ORIGINAL matrix form computed it, x² + y² − 2·(0 + x·y) (powi, broadcast sum, [dot_t]
+    accumulated from zero): equal to (x − y)² on the reals, but it cancels on binary64 (Properties/C20.v keeps a witness:
+    a NEGATIVE squared distance inside the stated ranges).  The repaired code forms x − y first. *)
+Definition sqdist_expanded {T} (O : Ops T) (x y : T) : T :=
+  sub O (add O (powi O x 2) (powi O y 2)) (mul O (two O) (add O (zero O) (mul O x y))).
 Lemma sqdist_expanded_R x y : sqdist_expanded RO x y = (x - y) * (x - y).
 Proof. unfold sqdist_expanded. rewrite !powi2_R. cbn [add sub mul zero two one RO]. ring. Qed.
-Lemma rbf_entry_scalar var ls x y : rbf_entry RO var ls x y = rbf RO var ls x y.
-Proof.
-  unfold rbf_entry. rewrite sqdist_expanded_R, rbf_R, powi2_R.
-  cbn [f1 RO Rf1 neg div mul two add one]. reflexivity.
-Qed.
-Lemma rq_entry_scalar var alpha ls x y : rq_entry RO var alpha ls x y = rq RO var alpha ls x y.
-Proof.
-  unfold rq_entry. rewrite sqdist_expanded_R, rq_R, powi2_R.
-  cbn [f2 RO Rf2 neg div mul two add one]. reflexivity.
-Qed.
 
 Section AnyCarrier.
   Context {T : Type} (O : Ops T).
-  (** one row per first-argument point, one column per second-argument point, entry = entry formula *)
+  (** one row per first-argument point, one column per second-argument point, entry = the scalar form: on EVERY carrier *)
   Lemma rbf_matrix_shape var ls xs ys :
     length (rbf_matrix O var ls xs ys) = length xs /\
     forall i, (i < length xs)%nat -> length (nth i (rbf_matrix O var ls xs ys) []) = length ys.
   Proof.
     unfold rbf_matrix. split; [apply map_length|]. intros i Hi.
-    rewrite (nth_indep _ [] (map (fun y => rbf_entry O var ls (zero O) y) ys)) by (rewrite map_length; exact Hi).
-    rewrite (map_nth (fun x => map (fun y => rbf_entry O var ls x y) ys) xs (zero O)). apply map_length.
+    rewrite (nth_indep _ [] (map (fun y => rbf O var ls (zero O) y) ys)) by (rewrite map_length; exact Hi).
+    rewrite (map_nth (fun x => map (fun y => rbf O var ls x y) ys) xs (zero O)). apply map_length.
   Qed.
   Lemma rbf_matrix_entry var ls xs ys i j d :
     (i < length xs)%nat -> (j < length ys)%nat ->
-    ent d (rbf_matrix O var ls xs ys) i j = rbf_entry O var ls (nth i xs d) (nth j ys d).
+    ent d (rbf_matrix O var ls xs ys) i j = rbf O var ls (nth i xs d) (nth j ys d).
   Proof.
     intros Hi Hj. unfold ent, rbf_matrix.
-    rewrite (nth_indep _ [] (map (fun y => rbf_entry O var ls d y) ys)) by (rewrite map_length; exact Hi).
-    rewrite (map_nth (fun x => map (fun y => rbf_entry O var ls x y) ys) xs d).
-    rewrite (nth_indep _ d (rbf_entry O var ls (nth i xs d) d)) by (rewrite map_length; exact Hj).
-    apply (map_nth (fun y => rbf_entry O var ls (nth i xs d) y)).
+    rewrite (nth_indep _ [] (map (fun y => rbf O var ls d y) ys)) by (rewrite map_length; exact Hi).
+    rewrite (map_nth (fun x => map (fun y => rbf O var ls x y) ys) xs d).
+    rewrite (nth_indep _ d (rbf O var ls (nth i xs d) d)) by (rewrite map_length; exact Hj).
+    apply (map_nth (fun y => rbf O var ls (nth i xs d) y)).
   Qed.
   Lemma rq_matrix_shape var alpha ls xs ys :
     length (rq_matrix O var alpha ls xs ys) = length xs /\
     forall i, (i < length xs)%nat -> length (nth i (rq_matrix O var alpha ls xs ys) []) = length ys.
   Proof.
     unfold rq_matrix. split; [apply map_length|]. intros i Hi.
-    rewrite (nth_indep _ [] (map (fun y => rq_entry O var alpha ls (zero O) y) ys)) by (rewrite map_length; exact Hi).
-    rewrite (map_nth (fun x => map (fun y => rq_entry O var alpha ls x y) ys) xs (zero O)). apply map_length.
+    rewrite (nth_indep _ [] (map (fun y => rq O var alpha ls (zero O) y) ys)) by (rewrite map_length; exact Hi).
+    rewrite (map_nth (fun x => map (fun y => rq O var alpha ls x y) ys) xs (zero O)). apply map_length.
   Qed.
   Lemma rq_matrix_entry var alpha ls xs ys i j d :
     (i < length xs)%nat -> (j < length ys)%nat ->
-    ent d (rq_matrix O var alpha ls xs ys) i j = rq_entry O var alpha ls (nth i xs d) (nth j ys d).
+    ent d (rq_matrix O var alpha ls xs ys) i j = rq O var alpha ls (nth i xs d) (nth j ys d).
   Proof.
     intros Hi Hj. unfold ent, rq_matrix.
-    rewrite (nth_indep _ [] (map (fun y => rq_entry O var alpha ls d y) ys)) by (rewrite map_length; exact Hi).
-    rewrite (map_nth (fun x => map (fun y => rq_entry O var alpha ls x y) ys) xs d).
-    rewrite (nth_indep _ d (rq_entry O var alpha ls (nth i xs d) d)) by (rewrite map_length; exact Hj).
-    apply (map_nth (fun y => rq_entry O var alpha ls (nth i xs d) y)).
+    rewrite (nth_indep _ [] (map (fun y => rq O var alpha ls d y) ys)) by (rewrite map_length; exact Hi).
+    rewrite (map_nth (fun x => map (fun y => rq O var alpha ls x y) ys) xs d).
+    rewrite (nth_indep _ d (rq O var alpha ls (nth i xs d) d)) by (rewrite map_length; exact Hj).
+    apply (map_nth (fun y => rq O var alpha ls (nth i xs d) y)).
   Qed.
 End AnyCarrier.
 
-(** the matrix form equals the scalar form entry by entry (x² + y² − 2xy = (x − y)²) *)
+Lemma matrix_is_scalar_any_carrier (T : Type) (O : Ops T) (var alpha ls : T) (xs ys : list T) (i j : nat) (d : T) :
+  (i < length xs)%nat -> (j < length ys)%nat ->
+  ent d (rbf_matrix O var ls xs ys) i j = rbf O var ls (nth i xs d) (nth j ys d) /\
+  ent d (rq_matrix O var alpha ls xs ys) i j = rq O var alpha ls (nth i xs d) (nth j ys d).
+Proof. intros Hi Hj. split; [apply rbf_matrix_entry|apply rq_matrix_entry]; assumption. Qed.
+
+(** the matrix form equals the scalar form entry by entry (real carrier; [rbf_matrix_entry] says it on every carrier) *)
 Lemma rbf_matrix_is_scalar var ls xs ys i j :
   (i < length xs)%nat -> (j < length ys)%nat ->
   ent 0 (rbf_matrix RO var ls xs ys) i j = rbf RO var ls (nth i xs 0) (nth j ys 0).
-Proof. intros Hi Hj. rewrite rbf_matrix_entry by assumption. apply rbf_entry_scalar. Qed.
+Proof. intros Hi Hj. apply rbf_matrix_entry; assumption. Qed.
 Lemma rq_matrix_is_scalar var alpha ls xs ys i j :
   (i < length xs)%nat -> (j < length ys)%nat ->
   ent 0 (rq_matrix RO var alpha ls xs ys) i j = rq RO var alpha ls (nth i xs 0) (nth j ys 0).
-Proof. intros Hi Hj. rewrite rq_matrix_entry by assumption. apply rq_entry_scalar. Qed.
+Proof. intros Hi Hj. apply rq_matrix_entry; assumption. Qed.
 
 (** Gram matrices are symmetric *)
 Lemma rbf_gram_symmetric var ls xs i j :
